@@ -215,6 +215,16 @@ def simulate_header_machine(prog, seq, rx_ok: bool, sizes=None, class_state=None
     "nc" anything else -- with a stub regular expression that matches (rx_ok) or not.  -> (_Recorder, emitted_at indexes)."""
     ch = prog.cls("CheckHeader")
     methods = {("CheckHeader", n): m.node for n, m in ch.methods.items()}
+    seen_b, todo_b = set(), list(ch.bases)
+    while todo_b:                                   # helpers inherited from Rule / Check (is_starting, is_ending)
+        b_ = todo_b.pop()
+        if b_ in seen_b or b_ not in prog.classes:
+            continue
+        seen_b.add(b_)
+        for n_, m_ in prog.classes[b_].methods.items():
+            if not (n_.startswith("__") and n_.endswith("__")):
+                methods.setdefault(("CheckHeader", n_), m_.node)
+        todo_b += list(prog.classes[b_].bases)
     ctx = prog.cls("Context")
     for n in ("peek_token", "check_token"):
         methods[("Context", n)] = ctx.methods[n].node
@@ -250,6 +260,16 @@ def simulate_header_machine(prog, seq, rx_ok: bool, sizes=None, class_state=None
             v = fold_in_fn(vals[0], runm, default=None)
             if isinstance(v, (str, int, tuple)):
                 ev.globals[nm] = v
+    # diagnostics filed directly through context.errors.add(...) count like new_error
+    def errors_add(name, *a, rec=rec, **k):
+        rec.emitted.append(name if isinstance(name, str) else str(getattr(name, "name", "?")))
+    errs = Obj("Errors")
+    errs.__dict__["_native"] = {"add": errors_add, "append": errors_add}
+    context.__dict__["errors"] = errs
+    context.__dict__["file"] = Obj("File", errors=errs, basename="file.c", name="file", type=".c", path="file.c")
+    context.__dict__["state"] = "running"
+    if "Highlight" in prog.classes:
+        ev.classes["Highlight"] = prog.classes["Highlight"].node
     me = Obj("CheckHeader", context=context, name="CheckHeader")
     from ..fold import class_constants
     for k_, v_ in class_constants(ch).items():           # class-level constants read through self
@@ -270,6 +290,14 @@ def simulate_header_machine(prog, seq, rx_ok: bool, sizes=None, class_state=None
         ev.steps = 0
         ev.call_function(runm.node, {"self": me, "context": context})
         emitted_at += [i] * (len(rec.emitted) - before)
+    # the end of the file: a check registered in the `_end` slot is run once more with context.state == "ending"
+    if "_end" in registry_model(prog).live_slots("CheckHeader"):
+        context.__dict__["state"] = "ending"
+        context.tokens = []
+        before = len(rec.emitted)
+        ev.steps = 0
+        ev.call_function(runm.node, {"self": me, "context": context})
+        emitted_at += [len(seq)] * (len(rec.emitted) - before)
     return rec, emitted_at
 
 
